@@ -115,3 +115,38 @@ func vfNormRR(rr dns.RR) string {
 	c.Header().Rdlength = 0
 	return strings.ToLower(c.String())
 }
+
+// vfExpectedAnswer lists the records ground truth allows in the answer section, and the subset that
+// must be present (the final RRset).
+func vfExpectedAnswer(g vfworld.GTruth, qtype uint16) (allowed map[string]uint32, required []string) {
+	allowed = map[string]uint32{}
+	for _, s := range g.Steps {
+		switch s.Type {
+		case dns.TypeCNAME:
+			for _, r := range s.Zone.RRset(s.Owner, dns.TypeCNAME) {
+				c := dns.Copy(r)
+				c.Header().Name = s.Name
+				allowed[vfNormRR(c)] = r.Header().Ttl
+			}
+		case dns.TypeDNAME:
+			for _, r := range s.Zone.RRset(s.Owner, dns.TypeDNAME) {
+				allowed[vfNormRR(r)] = r.Header().Ttl
+				allowed[vfNormRR(&dns.CNAME{Hdr: dns.RR_Header{Name: s.Name, Rrtype: dns.TypeCNAME, Class: dns.ClassINET}, Target: s.Target})] = r.Header().Ttl
+			}
+		}
+	}
+	if g.Out.Kind == "answer" && !g.Out.CNAME && !g.Loop {
+		owner := g.Name
+		if g.Out.Wildcard {
+			owner = g.Out.Source
+		}
+		for _, r := range g.Zone.RRset(owner, qtype) {
+			c := dns.Copy(r)
+			c.Header().Name = g.Name
+			k := vfNormRR(c)
+			allowed[k] = r.Header().Ttl
+			required = append(required, k)
+		}
+	}
+	return
+}
